@@ -10,13 +10,17 @@
   * `C17_latest`: "directory index" counts the directories of the path that exist; a file counts as a
     version of `ns` when `entryVersion` accepts its name (`C17_candidate_names`: for `ns-v.typelib`
     with no '-' in `v` that is "parse_version accepts v"); every *.typelib file is a valid typelib.
-  * `C17_inv_partial`: (1) the use-after-free of the lazy→eager transition was not executed (`ub =
-    false`; witness `C17_ub_counterexample`), (2) no load-from-memory of a namespace registered at
-    ANOTHER version (witness `C17_load_conflict_counterexample`: the C code replaces the typelib),
-    (3) `Ranked`: no namespace depends on itself through recorded dependencies (cycles are invalid
-    input: the C code recurses without bound).  Histories are otherwise arbitrary.
+  * `C17_inv_partial` / `C17_require_loaded`: (1) `staleKey = false`: no EAGER require / load of a LAZILY loaded
+    namespace found a typelib with another header than the lazily loaded one (the C code does not look at the lazy
+    entry: it searches again, skips the conflict check and registers what it finds under the OLD key; witness
+    `C17_eager_over_lazy_counterexample`).  Transitions that find the same contents again are covered.
+    (2) no load-from-memory of a namespace registered at ANOTHER version (witness
+    `C17_load_conflict_counterexample`: the C code replaces the typelib), (3) `Ranked`: no namespace depends on
+    itself through recorded dependencies (cycles are invalid input: the C code recurses without bound).
+    Histories are otherwise arbitrary.
   * `C17_conflict_mismatch_partial`: for a require WITHOUT version only the header namespace is
-    compared with the file name (witness `C17_latest_version_mismatch_counterexample`).
+    compared with the file name (witness `C17_latest_version_mismatch_counterexample`); a lazily loaded namespace
+    is only recognised as loaded when the LAZY flag is given (see (1)).
 -/
 import GIVerif.Lemmas.Repo
 
@@ -44,7 +48,8 @@ theorem C17_source_shape :
        "cmp:v1_major>v2_major:1;v2_major>v1_major:-1;v1_minor>v2_minor:1;v2_minor>v1_minor:-1",
        "cand:result > 0;result < 0;c1->path_index == c2->path_index;c1->path_index > c2->path_index",
        "prepend:g_slist_prepend", "init:g_slist_prepend,g_slist_prepend,g_slist_reverse", "sort:g_slist_sort",
-       "dep-require:dependency_version"] := by
+       "dep-require:dependency_version",
+       "transition:deps-first,lookup-lazy-key,steal,else-build-key,insert-eager"] := by
   decide
 
 /-! ### version order -/
@@ -284,8 +289,9 @@ theorem C17_conflict_mismatch_partial (fs : FS) (fuel : Nat) (s : Repo) (ns : St
     simp [requireInternal, hst, findFile, hc, hne]
 
 /-- The statement's "a file whose contents name another namespace OR VERSION than its file name is
-    refused", for the elected latest file, and "a version conflict is reported" for load-from-memory:
-    both FAIL on the unchanged code (witnesses below); kept as the full statement. -/
+    refused", for the elected latest file, "a version conflict is reported" for load-from-memory, and the
+    same for a lazily loaded namespace whatever the flags of the second require: all three FAIL on the
+    unchanged code (witnesses below); kept as the full statement. -/
 def C17_conflict_mismatch_full : Prop :=
   (∀ (fs : FS) (fuel : Nat) (s : Repo) (ns : Str) (lazy b : Bool) (path : List Str) (c : Cand),
     getRegisteredStatus s ns none lazy = .absent b → findLatest fs ns path = some c →
@@ -293,7 +299,10 @@ def C17_conflict_mismatch_full : Prop :=
     (requireInternal fs (fuel + 1) s ns none lazy path).2 = .error .mismatch) ∧
   (∀ (fs : FS) (fuel : Nat) (s : Repo) (hdr : Hdr) (lazy : Bool) (v : Str),
     getRegisteredStatus s hdr.ns (some hdr.ver) lazy = .conflict v →
-    loadTypelib fs fuel s hdr lazy = ({ s with nextId := s.nextId + 1 }, .error .versionConflict))
+    loadTypelib fs fuel s hdr lazy = ({ s with nextId := s.nextId + 1 }, .error .versionConflict)) ∧
+  (∀ (fs : FS) (fuel : Nat) (s : Repo) (ns : Str) (lazy : Bool) (path : List Str) (l : Loaded) (v : Str),
+    lookupTbl s.typelibs ns = none → lookupTbl s.lazy ns = some l → l.tl.hdr.ver ≠ v →
+    requireInternal fs (fuel + 1) s ns (some v) lazy path = (s, .error .versionConflict))
 
 def fooAs20 : FS := [("/d".toList, [⟨"Foo-2.0.typelib".toList, ⟨"Foo".toList, "1.9".toList, []⟩⟩])]
 
@@ -308,7 +317,7 @@ theorem C17_latest_version_mismatch_counterexample :
 def barLoaded : Repo :=
   { typelibs := [⟨"/d/Bar-1.0.typelib".toList, ⟨0, ⟨"Bar".toList, "1.0".toList, []⟩⟩⟩,
                  ⟨"/d/Foo-1.0.typelib".toList, ⟨1, ⟨"Foo".toList, "1.0".toList, ["Bar-1.0".toList]⟩⟩⟩],
-    lazy := [], nextId := 2, searchPath := ["/d".toList], ub := false }
+    lazy := [], nextId := 2, searchPath := ["/d".toList], staleKey := false }
 
 /-- With Bar 1.0 and Foo 1.0 (depending on Bar-1.0) loaded, loading Bar 2.0 from memory succeeds and
     REPLACES Bar: version 2.0 is reported with the path of Bar-1.0.typelib, and Foo's recorded
@@ -320,6 +329,25 @@ theorem C17_load_conflict_counterexample :
       = some "2.0".toList ∧
     getTypelibPath (loadTypelib [] 3 barLoaded ⟨"Bar".toList, "2.0".toList, []⟩ false).1 "Bar".toList
       = some "/d/Bar-1.0.typelib".toList := by
+  decide
+
+def bar12 : FS := [("/d".toList, [⟨"Bar-1.0.typelib".toList, ⟨"Bar".toList, "1.0".toList, []⟩⟩,
+                                  ⟨"Bar-2.0.typelib".toList, ⟨"Bar".toList, "2.0".toList, []⟩⟩]),
+                   ("/p".toList, [⟨"Bar-1.0.typelib".toList, ⟨"Bar".toList, "1.0".toList, []⟩⟩])]
+
+/-- Bar 1.0 lazily loaded; requiring Bar 2.0 WITHOUT the LAZY flag is no version conflict: Bar-2.0.typelib
+    is loaded and registered under the key of the lazy entry — version 2.0 is reported with the path of
+    Bar-1.0.typelib.  And after a lazy require_private from /p, the eager `require Bar 1.0` through a
+    search path without that file fails with NotFound although Bar 1.0 is loaded.  (Both replayed on
+    the real library: corpus/C17/pending_findings.json.) -/
+theorem C17_eager_over_lazy_counterexample :
+    (let r := run bar12 3 (Repo.init ["/d".toList])
+        [.require "Bar".toList (some "1.0".toList) true, .require "Bar".toList (some "2.0".toList) false]
+     getVersion r "Bar".toList = some "2.0".toList ∧
+     getTypelibPath r "Bar".toList = some "/d/Bar-1.0.typelib".toList ∧ r.staleKey = true) ∧
+    (let s := run bar12 3 (Repo.init ["/nowhere".toList]) [.requirePrivate "/p".toList "Bar".toList (some "1.0".toList) true]
+     getVersion s "Bar".toList = some "1.0".toList ∧
+     (require bar12 3 s "Bar".toList (some "1.0".toList) false).2 = .error .notFound) := by
   decide
 
 theorem C17_conflict_mismatch_full_fails : ¬ C17_conflict_mismatch_full := by
@@ -337,31 +365,25 @@ theorem C17_conflict_mismatch_full_fails : ¬ C17_conflict_mismatch_full := by
     one version, per namespace in each table; the lazy and the eager table are disjoint; every
     recorded dependency of an eagerly loaded namespace is loaded at the recorded version; the source
     reported for an entry is "<builtin>" or a file that exists and holds exactly that header.
-    Hypotheses: see the header (ub = false, guarded loads, acyclic dependencies). -/
+    Lazy → eager transitions are INCLUDED: the entry moves to the eager table under its old source, its
+    dependencies having been loaded first.
+    Hypotheses: see the header (staleKey = false, guarded loads, acyclic dependencies). -/
 theorem C17_inv_partial (fs : FS) (fuel : Nat) (rank : Str → Nat) (s : Repo) (ops : List Op)
     (hr : Ranked fs rank) (hinv : Inv fs s) (hg : Guarded fs fuel rank s ops)
-    (hub : (run fs fuel s ops).ub = false) : Inv fs (run fs fuel s ops) :=
-  (run_inv hr fuel ops s hinv hg hub).1
+    (hst : (run fs fuel s ops).staleKey = false) : Inv fs (run fs fuel s ops) :=
+  (run_inv hr fuel ops s hinv hg hst).1
 
 /-- the initial state satisfies the invariant -/
 theorem C17_inv_init (fs : FS) (path : List Str) : Inv fs (Repo.init path) :=
   ⟨by simp [Repo.init], by simp [Repo.init], (by intro l hl; cases hl), (by intro l hl; cases hl),
    (by intro l hl; cases hl)⟩
 
-/-- The property's wording without the three exclusions. -/
+/-- The property's wording without the three exclusions (for the first one see
+    `C17_eager_over_lazy_counterexample`: version 2.0 reported with the path of Bar-1.0.typelib). -/
 def C17_inv_full : Prop :=
   ∀ (fs : FS) (fuel : Nat) (path : List Str) (ops : List Op), Inv fs (run fs fuel (Repo.init path) ops)
 
-/-- The use-after-free is reachable: a lazy require followed by an eager require of the same
-    namespace (replayed on the real library: the namespace is then reported as not loaded). -/
-theorem C17_ub_counterexample :
-    (run [("/d".toList, [⟨"Bar-1.0.typelib".toList, ⟨"Bar".toList, "1.0".toList, []⟩⟩])] 3
-      (Repo.init ["/d".toList])
-      [.require "Bar".toList (some "1.0".toList) true, .require "Bar".toList (some "1.0".toList) false]).ub
-      = true := by
-  decide
-
-/-- …and the unguarded load breaks the invariant (dependency clause) in the model as in the library. -/
+/-- The unguarded load breaks the invariant (dependency clause) in the model as in the library. -/
 theorem C17_inv_full_fails : ¬ C17_inv_full := by
   intro h
   have := (h [("/d".toList, [⟨"Bar-1.0.typelib".toList, ⟨"Bar".toList, "1.0".toList, []⟩⟩,
@@ -432,6 +454,39 @@ theorem C17_reports (fs : FS) (s : Repo) (l : Loaded) (hinv : Inv fs s) (hl : l 
     rw [← List.map_append]
     exact List.mem_map_of_mem hl
 
+/-- A successful EAGER require — of a namespace that was not registered, was registered eagerly, or
+    was registered LAZILY (the lazy → eager transition) — under the invariant: afterwards the invariant
+    holds again, nothing that was loaded eagerly is lost, and the namespace is loaded eagerly: not in
+    the lazy table any more, its reported version is that of the returned typelib (the required one
+    when a version was given), its reported dependencies are the recorded ones and each of them is
+    loaded at the recorded version, and the reported path is "<builtin>" or a file that exists and
+    holds exactly the header of the returned typelib. -/
+theorem C17_require_loaded (fs : FS) (fuel : Nat) (rank : Str → Nat) (s : Repo) (ns : Str) (ver : Option Str)
+    (path : List Str) (hr : Ranked fs rank) (hinv : Inv fs s)
+    (hst : (requireInternal fs fuel s ns ver false path).1.staleKey = false) :
+    Inv fs (requireInternal fs fuel s ns ver false path).1 ∧
+    (∀ l ∈ s.typelibs, l ∈ (requireInternal fs fuel s ns ver false path).1.typelibs) ∧
+    (∀ tl, (requireInternal fs fuel s ns ver false path).2 = .ok tl →
+      tl.hdr.ns = ns ∧ (∀ v, ver = some v → tl.hdr.ver = v) ∧
+      lookupTbl (requireInternal fs fuel s ns ver false path).1.lazy ns = none ∧
+      getVersion (requireInternal fs fuel s ns ver false path).1 ns = some tl.hdr.ver ∧
+      getImmediateDependencies (requireInternal fs fuel s ns ver false path).1 ns = some tl.hdr.deps ∧
+      (∀ d ∈ tl.hdr.deps, DepLoaded (requireInternal fs fuel s ns ver false path).1 d) ∧
+      (∃ p, getTypelibPath (requireInternal fs fuel s ns ver false path).1 ns = some p ∧
+        (p = builtinSource ∨ FileAt fs p tl.hdr))) := by
+  obtain ⟨hp, hok⟩ := require_post hr fuel s ns ver false path hinv hst
+  refine ⟨hp.inv, hp.ext, ?_⟩
+  intro tl htl
+  obtain ⟨h1, h2, h3⟩ := hok tl htl
+  obtain ⟨l, hl, hlt⟩ := h3 rfl
+  have hln : l.ns = ns := by unfold Loaded.ns; rw [hlt]; exact h1
+  have hrep := C17_reports fs _ l hp.inv (List.mem_append_left _ hl)
+  rw [hln, hlt] at hrep
+  refine ⟨h1, h2, ?_, hrep.1, hrep.2.2.1, ?_, l.source, hrep.2.1, hrep.2.2.2.1⟩
+  · exact lookupTbl_none.mpr (fun l' hl' heq => hp.inv.disj l hl l' hl' (hln.trans heq.symm))
+  · intro d hd
+    exact hp.inv.deps l hl d (by rw [hlt]; exact hd)
+
 /-- The transitive dependency query reports only dependency strings that are reachable from the
     namespace through recorded dependencies of loaded typelibs (any fuel, no hypothesis). -/
 theorem C17_dependencies_sound (s : Repo) (fuel : Nat) (ns : Str) (l : List Str)
@@ -471,10 +526,20 @@ example : getLoadedNamespaces (run demoFS 4 (Repo.init demoPath) [.require "Foo"
     = ["Bar".toList, "Foo".toList] := by decide
 -- hypotheses of C17_exact / C17_latest are met by the initial state
 example : getRegisteredStatus (Repo.init demoPath) "Foo".toList (some "1.9".toList) false = .absent false := by decide
--- C17_inv_partial: the guard and ub = false hold on a history with a load from memory
+-- C17_inv_partial: the guard and staleKey = false hold on a history with a load from memory
 example : (run demoFS 4 (Repo.init demoPath)
     [.require "Foo".toList none false, .load ⟨"Baz".toList, "1.0".toList, ["Bar-1.0".toList]⟩ false,
-     .require "Foo".toList (some "1.9".toList) false, .prepend "/c".toList]).ub = false := by decide
+     .require "Foo".toList (some "1.9".toList) false, .prepend "/c".toList]).staleKey = false := by decide
+-- …and on a lazy → eager transition (C17_inv_partial, C17_require_loaded): Foo 1.10 lazily loaded, then
+-- required eagerly: it moves to the eager table under the same path, its dependency Bar is loaded
+def demoTransition : Repo := run demoFS 4 (Repo.init demoPath)
+  [.require "Foo".toList none true, .require "Foo".toList (some "1.10".toList) false]
+example : demoTransition.staleKey = false ∧ demoTransition.lazy = [] ∧
+    getLoadedNamespaces demoTransition = ["Bar".toList, "Foo".toList] ∧
+    getVersion demoTransition "Foo".toList = some "1.10".toList ∧
+    getTypelibPath demoTransition "Foo".toList = some "/b/Foo-1.10.typelib".toList := by decide
+example : (run demoFS 4 (Repo.init demoPath) [.require "Foo".toList none true]).lazy.map Loaded.ns
+    = ["Foo".toList] := by decide
 example : Guarded demoFS 4 (fun n => if n = "Bar".toList then 0 else 1) (Repo.init demoPath)
     [.require "Foo".toList none false, .load ⟨"Baz".toList, "1.0".toList, ["Bar-1.0".toList]⟩ false] := by
   refine ⟨trivial, ⟨?_, ?_⟩, trivial⟩
